@@ -21,28 +21,26 @@
     §3 MatchField (value, optional mask)         matchField_roundtrip — classes OPENFLOW_BASIC, NXM_1, EXPERIMENTER (all three);
                                                  matchField_registry_covered: instances exist for all 36 + 55 + 2 decodable fields
        Match (field list + padding)              match_roundtrip                  — every field decoded from inside the list
-    §4 actions through DecodeAction              actionOutput/Group/Setqueue/Push/PopVlan/PopMpls/DecNwTtl/Header/SetField,
+    §4 actions through DecodeAction              actionOutput/Group/Setqueue/Push/PopVlan/PopMpls/DecNwTtl/HeaderOnly/MplsTtl/NwTtl/SetField,
                                                  Nicira: nxConjunction / nxResubmit / nxResubmitTable (2 subtypes) / nxDecTTL
-       instructions through DecodeInstr          instrGotoTable / instrWriteMetadata / instrActions (any list of actions)
+       instructions through DecodeInstr          instrGotoTable / instrWriteMetadata / instrMeter / instrActions (any list of actions)
     §5 messages through Parse                    parse_header_only (6 header-only types); switchConfig_roundtrip (2 types);
                                                  flowMod_roundtrip (Match + instructions + actions nested); flowRemoved_roundtrip;
-                                                 helloElem_roundtrip, hello_roundtrip (any number of elements), hello_default_roundtrip;
+                                                 helloElem_roundtrip, hello_roundtrip (any number of elements, any number of bitmaps each),
+                                                 hello_default_roundtrip;
                                                  errorMsg_roundtrip; portStatus_roundtrip (+ phyPort_roundtrip); bundleProp_roundtrip (element);
                                                  switchFeatures_roundtrip_noports / _partial (ports discarded); packetIn_roundtrip (opaque Ethernet frame)
 
   Where the round trip is FALSE in the model (= the Go code violates C05), the concrete counterexample is proved:
-    actionMplsTtl_counterexample / actionNwTtl_counterexample / instrMeter_counterexample
-                                             TTL / MeterId neither written nor read (stub types without encoders of their own);
-                                             InstrMeter followed by anything decodes to the all-zero instruction  (known D42)
     switchFeatures_roundtrip_partial         (after the DPID fix) SwitchFeatures.UnmarshalBinary walks over the ports and discards
                                              them: a features reply with ports comes back with Ports = [] (known: D-list "ports")
-    hello_unpadded_element_counterexample    a hello element whose Length is not a multiple of 8 followed by another element:
-                                             the encoder does not pad, the decoder advances by the rounded Length — the
-                                             following element is lost without an error (condition `PadOK` of hello_roundtrip)
   Fixed since the first version of this file, the counterexamples replaced by positive theorems: experimenter-class OXM
   (D14: matchField_roundtrip now covers it), NXActionResubmit.TableID (nxResubmit_roundtrip), hello bitmap decoder reading
   to the end of the buffer (D20: helloElem_roundtrip, hello_roundtrip, hello_two_elements_roundtrip), SwitchFeatures DPID never
-  written (switchFeatures_roundtrip_noports, switchFeatures_example).
+  written (switchFeatures_roundtrip_noports, switchFeatures_example); ActionMplsTtl / ActionNwTtl / InstrMeter without codecs of
+  their own (D42: actionMplsTtl_roundtrip, actionNwTtl_roundtrip, actionTtl_new_roundtrip, instrMeter_roundtrip,
+  instrMeter_new_roundtrip); header-only actions decoded as 4 bytes (actionHeaderOnly_roundtrip: 8 bytes); hello elements not
+  padded to 8 (hello_roundtrip without `PadOK`, hello_padded_elements_roundtrip).
   Representation change (not a defect): ipv4_short_form — a 4-byte net.IP comes back in the 16-byte form of the same address.
 -/
 import OFV.Model.All
@@ -323,16 +321,25 @@ theorem actionDecNwTtl_roundtrip (ln k : Nat) (p : V) (hln : ln < 65536) :
   obtain ⟨h1', _, _⟩ := actionDecNwTtl_rt ln (.bytes []) hln
   exact ⟨h1, h1', fun data tail hd hb => h3 data tail k hd hb⟩
 
-/-- the header-only actions: copy-ttl-out 11, copy-ttl-in 12, dec-mpls-ttl 16, pop-pbb 27 (4 bytes in this library) -/
-theorem actionHeaderOnly_roundtrip (ty ln k : Nat)
+/-- the header-only actions: copy-ttl-out 11, copy-ttl-in 12, dec-mpls-ttl 16, pop-pbb 27.  `DecodeAction` decodes them into
+    `new(ActionDecNwTtl)` — header plus 4 bytes of padding, the 8 bytes OpenFlow 1.3 prescribes (fixed: they used to be
+    decoded into a bare 4-byte ActionHeader); the pad (any value: the encoder ignores it) comes back nil -/
+theorem actionHeaderOnly_roundtrip (ty ln k : Nat) (p : V)
     (hty : ty = Gen.openflow13.ActionType_CopyTtlOut ∨ ty = Gen.openflow13.ActionType_CopyTtlIn ∨
       ty = Gen.openflow13.ActionType_DecMplsTtl ∨ ty = Gen.openflow13.ActionType_PopPbb) (hln : ln < 65536) :
-    RoundTrip Action.marshalM (DecodeAction (k + 1)) (ActionHeader.mk ty ln) (ActionHeader.mk ty ln)
-      (be16 (n16 ty) ++ be16 (n16 ln)) := by
-  have hty16 : ty < 65536 := by rcases hty with h | h | h | h <;> (rw [h]; decide)
-  have hlook : actionTypeTable.lookup ty = some ActionHeader.zero := by rcases hty with h | h | h | h <;> (rw [h]; rfl)
-  obtain ⟨h1, _, h3⟩ := actionHeader_rt ty ln hty16 hlook hln
-  exact ⟨h1, h1, fun data tail hd hb => h3 data tail k hd hb⟩
+    RoundTrip Action.marshalM (DecodeAction (k + 1))
+      (.obj "ActionDecNwTtl" [ActionHeader.mk ty ln, p])
+      (.obj "ActionDecNwTtl" [ActionHeader.mk ty ln, .bytes []])
+      (be16 (n16 ty) ++ be16 (n16 ln) ++ zeros 4) := by
+  obtain ⟨hty16, hlook⟩ := headerOnly_lookup ty hty
+  obtain ⟨h1, _, h3⟩ := actionHdrPad_rt ty ln p hty16 hlook hln
+  obtain ⟨h1', _, _⟩ := actionHdrPad_rt ty ln (.bytes []) hty16 hlook hln
+  exact ⟨h1, h1', fun data tail hd hb => h3 data tail k hd hb⟩
+
+/-- … and their size is 8: `Len()` agrees with the encoding -/
+theorem actionHeaderOnly_len (ty ln : Nat) (p : V) :
+    Action.lenM (.obj "ActionDecNwTtl" [ActionHeader.mk ty ln, p]) = .ok (8, .obj "ActionDecNwTtl" [ActionHeader.mk ty ln, p]) ∧
+    (be16 (n16 ty) ++ be16 (n16 ln) ++ zeros 4).length = 8 := ⟨rfl, rfl⟩
 
 /-- ActionSetField around any well-formed match field: header, field, zero padding to a multiple of 8 -/
 theorem actionSetField_roundtrip (ln k : Nat) (f : V) (hln : ln < 65536) (hf : MatchFieldWF f) :
@@ -343,34 +350,57 @@ theorem actionSetField_roundtrip (ln k : Nat) (f : V) (hln : ln < 65536) (hf : M
   refine ⟨bs, ⟨h1, h1, fun data tail hd hb => h3 data tail k hd hb⟩, h2, ?_⟩
   rw [hbs]; simp only [List.length_append, be16_length, zeros_length]; omega
 
-/-- COUNTEREXAMPLE (defect D42).  ActionMplsTtl has no methods of its own (they are ActionHeader's): only the 4 header bytes
-    are written, the TTL is neither written nor read.  set-mpls-ttl 7 decodes to set-mpls-ttl 0. -/
-theorem actionMplsTtl_counterexample (tail : Bytes) (k : Nat) :
-    let v := V.obj "ActionMplsTtl" [ActionHeader.mk 15 8, .num 7, .bytes (zeros 3)]
-    Action.marshalM v = .ok ([0, 15, 0, 8], v) ∧
-    DecodeAction (k + 1) (Slice.exact ([0, 15, 0, 8] ++ tail))
-      = .ok (.obj "ActionMplsTtl" [ActionHeader.mk 15 8, .num 0, .bytes []]) := by
-  obtain ⟨h1, _, h3⟩ := actionMplsTtl_decode 8 7 (.bytes (zeros 3)) (by decide)
-  exact ⟨h1, h3 _ tail k (Slice.exact_wf _) (by simp [Slice.exact, Slice.bytes]; rfl)⟩
-
-/-- the same for every TTL and header length: the decoded TTL is always 0 -/
-theorem actionMplsTtl_ttl_lost (ln ttl k : Nat) (p : V) (hln : ln < 65536) :
+/-- ActionMplsTtl (set-mpls-ttl), for EVERY ttl (a byte) and header Length, followed by anything (defect D42, fixed: the
+    type now has its own Len / MarshalBinary / UnmarshalBinary — header, ttl, 3 bytes of padding; before, only the 4
+    header bytes were written and the ttl came back 0).  The unexported pad (any value: the encoder ignores it) comes back nil. -/
+theorem actionMplsTtl_roundtrip (ln ttl k : Nat) (p : V) (hln : ln < 65536) (httl : ttl < 256) :
     RoundTrip Action.marshalM (DecodeAction (k + 1))
       (.obj "ActionMplsTtl" [ActionHeader.mk Gen.openflow13.ActionType_SetMplsTtl ln, .num ttl, p])
-      (.obj "ActionMplsTtl" [ActionHeader.mk Gen.openflow13.ActionType_SetMplsTtl ln, .num 0, .bytes []])
-      (be16 (n16 Gen.openflow13.ActionType_SetMplsTtl) ++ be16 (n16 ln)) := by
-  obtain ⟨h1, _, h3⟩ := actionMplsTtl_decode ln ttl p hln
-  obtain ⟨h1', _, _⟩ := actionMplsTtl_decode ln 0 (.bytes []) hln
+      (.obj "ActionMplsTtl" [ActionHeader.mk Gen.openflow13.ActionType_SetMplsTtl ln, .num ttl, .bytes []])
+      (be16 (n16 Gen.openflow13.ActionType_SetMplsTtl) ++ be16 (n16 ln) ++ [n8 ttl, 0, 0, 0]) := by
+  obtain ⟨h1, _, h3⟩ := actionMplsTtl_rt ln ttl p hln httl
+  obtain ⟨h1', _, _⟩ := actionMplsTtl_rt ln ttl (.bytes []) hln httl
   exact ⟨h1, h1', fun data tail hd hb => h3 data tail k hd hb⟩
 
-/-- COUNTEREXAMPLE (defect D42), ActionNwTtl: set-nw-ttl 64 decodes to set-nw-ttl 0 -/
-theorem actionNwTtl_counterexample (tail : Bytes) (k : Nat) :
-    let v := V.obj "ActionNwTtl" [ActionHeader.mk 23 8, .num 64, .bytes (zeros 3)]
-    Action.marshalM v = .ok ([0, 23, 0, 8], v) ∧
-    DecodeAction (k + 1) (Slice.exact ([0, 23, 0, 8] ++ tail))
-      = .ok (.obj "ActionNwTtl" [ActionHeader.mk 23 8, .num 0, .bytes []]) := by
-  obtain ⟨h1, _, h3⟩ := actionNwTtl_decode 8 64 (.bytes (zeros 3)) (by decide)
-  exact ⟨h1, h3 _ tail k (Slice.exact_wf _) (by simp [Slice.exact, Slice.bytes]; rfl)⟩
+/-- ActionNwTtl (set-nw-ttl), for every ttl and header Length, followed by anything (defect D42, fixed) -/
+theorem actionNwTtl_roundtrip (ln ttl k : Nat) (p : V) (hln : ln < 65536) (httl : ttl < 256) :
+    RoundTrip Action.marshalM (DecodeAction (k + 1))
+      (.obj "ActionNwTtl" [ActionHeader.mk Gen.openflow13.ActionType_SetNwTtl ln, .num ttl, p])
+      (.obj "ActionNwTtl" [ActionHeader.mk Gen.openflow13.ActionType_SetNwTtl ln, .num ttl, .bytes []])
+      (be16 (n16 Gen.openflow13.ActionType_SetNwTtl) ++ be16 (n16 ln) ++ [n8 ttl, 0, 0, 0]) := by
+  obtain ⟨h1, _, h3⟩ := actionNwTtl_rt ln ttl p hln httl
+  obtain ⟨h1', _, _⟩ := actionNwTtl_rt ln ttl (.bytes []) hln httl
+  exact ⟨h1, h1', fun data tail hd hb => h3 data tail k hd hb⟩
+
+/-- what the constructors build round-trips with value equality: NewActionMplsTtl(t) / NewActionNwTtl(t) for every `t`
+    (the constructor keeps the low byte), 8 bytes each -/
+theorem actionTtl_new_roundtrip (t k : Nat) :
+    RoundTrip Action.marshalM (DecodeAction (k + 1)) (ActionMplsTtl.new t) (ActionMplsTtl.new t)
+      (be16 (n16 Gen.openflow13.ActionType_SetMplsTtl) ++ be16 (n16 8) ++ [n8 t, 0, 0, 0]) ∧
+    RoundTrip Action.marshalM (DecodeAction (k + 1)) (ActionNwTtl.new t) (ActionNwTtl.new t)
+      (be16 (n16 Gen.openflow13.ActionType_SetNwTtl) ++ be16 (n16 8) ++ [n8 t, 0, 0, 0]) := by
+  have hlt : (n8 t).toNat < 256 := (n8 t).toNat_lt
+  have hn : n8 (n8 t).toNat = n8 t := UInt8.ofNat_toNat
+  have h1 := actionMplsTtl_roundtrip 8 (n8 t).toNat k (.bytes []) (by decide) hlt
+  have h2 := actionNwTtl_roundtrip 8 (n8 t).toNat k (.bytes []) (by decide) hlt
+  rw [hn] at h1 h2
+  exact ⟨h1, h2⟩
+
+/-- the former counterexamples (set-mpls-ttl 7, set-nw-ttl 64, pad of 3 zero bytes as a hand-built value) now come back with
+    their TTL -/
+theorem actionTtl_examples (tail : Bytes) (k : Nat) :
+    (let v := V.obj "ActionMplsTtl" [ActionHeader.mk 15 8, .num 7, .bytes (zeros 3)]
+     Action.marshalM v = .ok ([0, 15, 0, 8, 7, 0, 0, 0], v) ∧
+     DecodeAction (k + 1) (Slice.exact ([0, 15, 0, 8, 7, 0, 0, 0] ++ tail))
+       = .ok (.obj "ActionMplsTtl" [ActionHeader.mk 15 8, .num 7, .bytes []])) ∧
+    (let v := V.obj "ActionNwTtl" [ActionHeader.mk 23 8, .num 64, .bytes (zeros 3)]
+     Action.marshalM v = .ok ([0, 23, 0, 8, 64, 0, 0, 0], v) ∧
+     DecodeAction (k + 1) (Slice.exact ([0, 23, 0, 8, 64, 0, 0, 0] ++ tail))
+       = .ok (.obj "ActionNwTtl" [ActionHeader.mk 23 8, .num 64, .bytes []])) := by
+  obtain ⟨h1, _, h3⟩ := actionMplsTtl_roundtrip 8 7 k (.bytes (zeros 3)) (by decide) (by decide)
+  obtain ⟨g1, _, g3⟩ := actionNwTtl_roundtrip 8 64 k (.bytes (zeros 3)) (by decide) (by decide)
+  exact ⟨⟨h1, h3 _ tail (Slice.exact_wf _) (by simp [Slice.exact, Slice.bytes]; rfl)⟩,
+    ⟨g1, g3 _ tail (Slice.exact_wf _) (by simp [Slice.exact, Slice.bytes]; rfl)⟩⟩
 
 /-! Nicira actions: type 0xffff, vendor 0x2320; the header's Length must be the kind's size (the encoder allocates
     `Length` bytes). `nxHdr ln sub` / `nxHdrBytes ln sub` (OFV/Lemmas/RTNx.lean) are that header and its 10 bytes. -/
@@ -455,19 +485,32 @@ example : ∃ as encs, ActionsRT as encs ∧ as.length = 4 ∧ 48 = 8 + encs.fla
       (.cons (actionRT_group 8 9 (by decide) (by decide))
         (.cons (actionRT_popVlan 8 (by decide)) .nil))), rfl, rfl⟩
 
-/-- COUNTEREXAMPLE (defect D42).  InstrMeter has no methods of its own: it is encoded as the 4 bytes of its InstrHeader, the
-    MeterId is never written.  Decoded alone the MeterId is 0; decoded with anything behind it (InstrHeader.UnmarshalBinary
-    insists on exactly 4 bytes, DecodeInstr drops the error) the result is the all-zero instruction. -/
-theorem instrMeter_counterexample (ln mid : Nat) (hln : ln < 65536) :
-    let hdr := V.obj "InstrHeader" [.num Gen.openflow13.InstrType_METER, .num ln]
-    let v := V.obj "InstrMeter" [hdr, .num mid]
-    let bs := be16 (n16 Gen.openflow13.InstrType_METER) ++ be16 (n16 ln)
-    Instruction.marshalM v = .ok (bs, v) ∧
-    (∀ (data : Slice), data.WF → data.bytes = bs → DecodeInstr data = .ok (.obj "InstrMeter" [hdr, .num 0])) ∧
-    (∀ (data : Slice) (tail : Bytes), data.WF → data.bytes = bs ++ tail → tail ≠ [] →
-      DecodeInstr data = .ok InstrMeter.zero) := by
-  obtain ⟨h1, _, h3, h4⟩ := instrMeter_decode ln mid hln
-  exact ⟨h1, h3, h4⟩
+/-- InstrMeter through DecodeInstr, for EVERY meter id (32 bits) and header Length, followed by anything (defect D42,
+    fixed: the type now has its own Len / MarshalBinary / UnmarshalBinary — header and meter id, 8 bytes; before, only the 4
+    header bytes were written and the instruction decoded to MeterId 0, or to the all-zero instruction when anything
+    followed it). -/
+theorem instrMeter_roundtrip (ln mid : Nat) (hln : ln < 65536) (hmid : mid < 4294967296) :
+    let v := V.obj "InstrMeter" [.obj "InstrHeader" [.num Gen.openflow13.InstrType_METER, .num ln], .num mid]
+    RoundTrip Instruction.marshalM DecodeInstr v v
+      (be16 (n16 Gen.openflow13.InstrType_METER) ++ be16 (n16 ln) ++ be32 (n32 mid)) ∧
+    Instruction.lenM v = .ok (8, v) := by
+  obtain ⟨h1, h2, h3⟩ := instrMeter_rt ln mid hln hmid
+  exact ⟨⟨h1, h1, h3⟩, h2⟩
+
+/-- NewInstrMeter(m) round-trips with value equality for every `m` (the constructor takes a uint32: the low 32 bits) -/
+theorem instrMeter_new_roundtrip (m : Nat) :
+    RoundTrip Instruction.marshalM DecodeInstr (InstrMeter.new m) (InstrMeter.new m)
+      (be16 (n16 Gen.openflow13.InstrType_METER) ++ be16 (n16 8) ++ be32 (n32 m)) := by
+  have hlt : (n32 m).toNat < 4294967296 := (n32 m).toNat_lt
+  have hn : n32 (n32 m).toNat = n32 m := UInt32.ofNat_toNat
+  have h := (instrMeter_roundtrip 8 (n32 m).toNat (by decide) hlt).1
+  rw [hn] at h
+  exact h
+
+/-- the former counterexample shape: meter 5 followed by a goto-table instruction decodes to meter 5 -/
+example (tail : Bytes) : DecodeInstr (Slice.exact ([0, 6, 0, 8, 0, 0, 0, 5] ++ tail))
+    = .ok (.obj "InstrMeter" [.obj "InstrHeader" [.num 6, .num 8], .num 5]) :=
+  (instrMeter_roundtrip 8 5 (by decide) (by decide)).1.2.2 _ tail (Slice.exact_wf _) (by simp [Slice.exact, Slice.bytes]; rfl)
 
 /-! ## §5 top-level messages through Parse -/
 
@@ -483,7 +526,7 @@ example : HeaderOnlyType Gen.openflow13.Type_BarrierRequest := Or.inr (Or.inr (O
 
 /-- FlowMod through Parse — a top-level message containing a Match (list of fields, padding) and a list of instructions
     (which contain lists of actions).  Every scalar inside its width, `MatchWF m`, every instruction round-trips on its own
-    (`InstrsRT is encs`, OFV/Lemmas/RTFlowMod.lean — established by `instrRT_gotoTable`, `instrRT_writeMetadata`,
+    (`InstrsRT is encs`, OFV/Lemmas/RTFlowMod.lean — established by `instrRT_gotoTable`, `instrRT_writeMetadata`, `instrRT_meter`,
     `instrRT_actions` for any action list), delete commands carry no instructions, total size below 2^16.
     `MarshalBinary` stores the total size in Header.Length (whatever Length `ln0` was there) and leaves the rest unchanged;
     `Parse` of those bytes followed by anything returns the value with that Length (unexported pad nil), which in turn
@@ -505,13 +548,15 @@ theorem flowMod_roundtrip (ver xid ck cm tid cmd it ht pr bid op og fl : Nat) (m
   flowMod_rt ver xid ck cm tid cmd it ht pr bid op og fl m is encs hver hxid hck hcm htid hcmd hit hht hpr hbid hop hog hfl
     hm his hdel
 
-/-- satisfiable: instructions [goto-table 3, write-metadata, apply-actions [set-queue 5, output 2]] -/
-example : ∃ is encs, InstrsRT is encs ∧ is.length = 3 :=
-  ⟨_, _, .cons (instrRT_gotoTable 8 3 (by decide) (by decide))
+/-- satisfiable: instructions [meter 9, goto-table 3, write-metadata, apply-actions [set-queue 5, set-nw-ttl 64, output 2]] -/
+example : ∃ is encs, InstrsRT is encs ∧ is.length = 4 :=
+  ⟨_, _, .cons (instrRT_meter 8 9 (by decide) (by decide))
+    (.cons (instrRT_gotoTable 8 3 (by decide) (by decide))
     (.cons (instrRT_writeMetadata 24 81985529216486895 18446744073709551615 (by decide) (by decide) (by decide))
-      (.cons (instrRT_actions Gen.openflow13.InstrType_APPLY_ACTIONS 32 _ _ (Or.inr (Or.inl rfl))
+      (.cons (instrRT_actions Gen.openflow13.InstrType_APPLY_ACTIONS 40 _ _ (Or.inr (Or.inl rfl))
         (.cons (actionRT_setqueue 8 5 (by decide) (by decide))
-          (.cons (actionRT_output 16 2 65535 (by decide) (by decide) (by decide)) .nil)) rfl (by decide)) .nil)), rfl⟩
+          (.cons (actionRT_nwTtl 8 64 (by decide) (by decide))
+            (.cons (actionRT_output 16 2 65535 (by decide) (by decide) (by decide)) .nil))) rfl (by decide)) .nil))), rfl⟩
 
 /-- FlowRemoved through Parse: header, 40 fixed bytes, the Match.  All scalars inside their widths, `MatchWF m`, total size
     `L` = 48 + size of the Match below 2^16.  `MarshalBinary` stores `L` in Header.Length (whatever `ln0` was there); Parse of
@@ -670,37 +715,46 @@ example : EthRT (ethOpaqueV [1, 2, 3, 4, 5, 6] [7, 8, 9, 10, 11, 12] 35020 [1, 2
     ([1, 2, 3, 4, 5, 6] ++ [7, 8, 9, 10, 11, 12] ++ be16 (n16 35020) ++ [1, 2, 3, 4, 5]) :=
   ethRT_opaque _ _ 35020 _ rfl rfl (by decide) (by decide) (by decide)
 
-/-- One hello element, followed by anything (the next element, …): `HelloElemVersionBitmap.UnmarshalBinary` reads the bitmaps
-    up to the element's own Length (D20 bitmap part, fixed).  Element = type 1, Length = 4 + 4·#bitmaps (`helloElemV ws`),
-    bitmaps below 2^32. -/
-theorem helloElem_roundtrip (recv : V) (ws : List Nat) (hws : ∀ w ∈ ws, w < 4294967296) (hk : 4 + 4 * ws.length < 65536) :
+/-- One hello element, followed by anything (the next element, …).  Element = type 1, ANY number of bitmaps (below 2^32
+    each), Length = 4 + 4·#bitmaps (`helloElemV ws`).  `HelloElemVersionBitmap.MarshalBinary` writes header and bitmaps and
+    pads the element with zeros to a multiple of 8 (`helloElemBytes ws`; fixed: it used not to pad);
+    `UnmarshalBinary` reads the bitmaps up to the element's own Length (D20 bitmap part, fixed).  Whatever Length `l0` is
+    stored in the value, the encoder stores 4 + 4·#bitmaps (second statement).  Bound: the padded size fits 16 bits. -/
+theorem helloElem_roundtrip (recv : V) (ws : List Nat) (hws : ∀ w ∈ ws, w < 4294967296) (hk : 4 + 4 * ws.length + 7 < 65536) :
     RoundTrip HelloElemVersionBitmap.marshalM (HelloElemVersionBitmap.unmarshal recv) (helloElemV ws) (helloElemV ws)
-      (helloElemBytes ws) := by
+      (helloElemBytes ws) ∧
+    (∀ l0, HelloElemVersionBitmap.marshalM
+        (.obj "HelloElemVersionBitmap" [.obj "HelloElemHeader" [.num 1, .num l0], .list (ws.map V.num)])
+      = .ok (helloElemBytes ws, helloElemV ws)) ∧
+    (helloElemBytes ws).length % 8 = 0 := by
   have he := (helloElem_encode 1 (4 + 4 * ws.length) ws hk).1
-  exact ⟨he, he, fun data tail hd hb =>
-    helloElem_decode recv data hd 1 (by decide) ws hws hk tail (by rw [hb]; rfl)⟩
+  refine ⟨⟨he, he, fun data tail hd hb =>
+    helloElem_decode recv data hd 1 (by decide) ws hws (by omega) (zeros (helloPad ws.length) ++ tail)
+      (by rw [hb]; simp only [helloElemBytes, List.append_assoc])⟩, fun l0 => (helloElem_encode 1 l0 ws hk).1, ?_⟩
+  rw [helloElemBytes_length]; omega
 
-/-- Hello with ANY number of version-bitmap elements through Parse, the buffer holding exactly the message
-    (`data.bytes = bs`; Hello.UnmarshalBinary walks to the end of the buffer, not to Header.Length).
-    Exact condition: every element is `helloElemV ws` (type 1, Length = 4 + 4·#bitmaps, bitmaps < 2^32: `ElemsOK`), and every
-    element EXCEPT THE LAST has a Length that is a multiple of 8, i.e. an odd number of bitmaps (`PadOK`) — the encoder
-    does not pad elements, the decoder advances by the Length rounded up to 8; total size below 2^16.
+/-- Hello with ANY number of version-bitmap elements, each with ANY number of bitmaps, through Parse, the buffer holding
+    exactly the message (`data.bytes = bs`; Hello.UnmarshalBinary walks to the end of the buffer, not to Header.Length).
+    Condition: every element is `helloElemV ws` (type 1, Length = 4 + 4·#bitmaps, bitmaps < 2^32: `ElemsOK`); total size
+    below 2^16.  The encoder pads every element to a multiple of 8 and the decoder advances by the Length rounded up to 8,
+    so the former condition `PadOK` (every element but the last has an odd number of bitmaps) is gone (fixed).
     `MarshalBinary` stores the size in Header.Length (whatever `ln0` was there); Parse returns the value with that Length,
     which encodes to the same bytes. -/
 theorem hello_roundtrip (ver xid : Nat) (wss : List (List Nat)) (hver : ver < 256) (hxid : xid < 4294967296)
-    (hok : ElemsOK wss) (hpad : PadOK wss) (hk : 8 + (helloBody wss).length < 65536) :
+    (hok : ElemsOK wss) (hk : 8 + (helloBody wss).length < 65536) :
     let bs := [n8 ver, n8 0] ++ be16 (n16 (8 + (helloBody wss).length)) ++ be32 (n32 xid) ++ helloBody wss
     (∀ ln0, Hello.marshalM (helloV ver ln0 xid wss) = .ok (bs, helloV ver (8 + (helloBody wss).length) xid wss)) ∧
     ∀ (depth : Nat) (data : Slice), data.WF → data.bytes = bs →
       parse depth data = .ok (helloV ver (8 + (helloBody wss).length) xid wss) :=
-  hello_rt ver xid wss hver hxid hok hpad hk
+  hello_rt ver xid wss hver hxid hok hk
 
-/-- satisfiable with three elements: 1 bitmap (Length 8), 3 bitmaps (Length 16), and a last one with 2 bitmaps (Length 12) -/
-example : ElemsOK [[18], [1, 2, 3], [4, 5]] ∧ PadOK [[18], [1, 2, 3], [4, 5]] := by
-  refine ⟨?_, ⟨rfl, rfl, trivial⟩⟩
+/-- satisfiable with four elements: 1 bitmap (Length 8), 2 bitmaps (Length 12, padded to 16) in the MIDDLE, 3 bitmaps
+    (Length 16), none (Length 4, padded to 8); body 8 + 16 + 16 + 8 bytes -/
+example : ElemsOK [[18], [4, 5], [1, 2, 3], []] ∧ (helloBody [[18], [4, 5], [1, 2, 3], []]).length = 48 := by
+  refine ⟨?_, rfl⟩
   intro ws hws
   simp only [List.mem_cons, List.not_mem_nil, or_false] at hws
-  rcases hws with rfl | rfl | rfl <;> exact ⟨by decide, by decide⟩
+  rcases hws with rfl | rfl | rfl | rfl <;> exact ⟨by decide, by decide⟩
 
 /-- NewHello(4) (one version-bitmap element), xid 7: MarshalBinary sets Header.Length = 16; Parse of the 16 bytes gives the
     marshalled value back and it encodes to the same bytes. -/
@@ -718,18 +772,15 @@ theorem hello_two_elements_roundtrip :
     Hello.marshalM v = .ok (bs, v) ∧ parse 25 (Slice.exact bs) = .ok v :=
   ⟨rfl, rfl⟩
 
-/-- REMAINING FAILURE (the `PadOK` condition is needed).  A hello element whose Length is not a multiple of 8 (two bitmaps:
-    Length 12) FOLLOWED by another element: `HelloElemVersionBitmap.MarshalBinary` writes 12 bytes without padding, the next
-    element starts right behind it; `Hello.UnmarshalBinary` advances by 16, lands 4 bytes inside the second element, reads
-    its last bitmap 0x00000012 as an element header (type 0, length 18), skips it — and returns, without error, a Hello
-    that has lost the second element.  (OpenFlow 1.3.1+ pads hello elements to 8 bytes; the encoder does not.) -/
-theorem hello_unpadded_element_counterexample :
+/-- the former counterexample (an element with two bitmaps, Length 12, FOLLOWED by another element) now round-trips:
+    the encoder pads the first element to 16 bytes (Header.Length 32), the decoder advances by 16 and finds the second
+    element; nothing is lost (instance of `hello_roundtrip`) -/
+theorem hello_padded_elements_roundtrip :
     let e1 := V.obj "HelloElemVersionBitmap" [.obj "HelloElemHeader" [.num 1, .num 12], .list [.num 5, .num 6]]
     let e2 := V.obj "HelloElemVersionBitmap" [.obj "HelloElemHeader" [.num 1, .num 8], .list [.num 18]]
-    let hdr := V.obj "Header" [.num 4, .num 0, .num 28, .num 7]
-    let bs : Bytes := [4, 0, 0, 28, 0, 0, 0, 7,  0, 1, 0, 12, 0, 0, 0, 5, 0, 0, 0, 6,  0, 1, 0, 8, 0, 0, 0, 18]
-    Hello.marshalM (.obj "Hello" [hdr, .list [e1, e2]]) = .ok (bs, .obj "Hello" [hdr, .list [e1, e2]]) ∧
-    parse 29 (Slice.exact bs) = .ok (.obj "Hello" [hdr, .list [e1]]) :=
+    let v := V.obj "Hello" [.obj "Header" [.num 4, .num 0, .num 32, .num 7], .list [e1, e2]]
+    let bs : Bytes := [4, 0, 0, 32, 0, 0, 0, 7,  0, 1, 0, 12, 0, 0, 0, 5, 0, 0, 0, 6, 0, 0, 0, 0,  0, 1, 0, 8, 0, 0, 0, 18]
+    Hello.marshalM v = .ok (bs, v) ∧ parse 33 (Slice.exact bs) = .ok v :=
   ⟨rfl, rfl⟩
 
 end OFV.Props.C05
